@@ -56,8 +56,9 @@ VerFailures(ev) ==
       signed == { <<ev.signed[i].cert, ev.signed[i].msg>> : i \in 1..Len(ev.signed) }
       rr == IF ev.hasfile THEN RefRead(ev.file) ELSE BadRead("either")
   IN (IF ev.panic THEN {"panic"} ELSE {})
-  \cup (IF ev.ok /\ ~Authentic(ev.x, ev.t, ev.leaf, signed, ev.ret) THEN {"accepted content the key holder did not sign"} ELSE {})
-  \cup (IF ev.exact /\ ev.ok # a.ok THEN {IF ev.ok THEN "accepted although a condition is violated" ELSE "rejected although every condition holds"} ELSE {})
+  \cup (IF ev.ok /\ ~HasNegativeTime(ev.x) /\ ~Authentic(ev.x, ev.t, ev.leaf, signed, ev.ret) THEN {"accepted content the key holder did not sign"} ELSE {})
+  \cup (IF ev.exact /\ ~HasNegativeTime(ev.x) /\ ev.ok # a.ok THEN {IF ev.ok THEN "accepted although a condition is violated" ELSE "rejected although every condition holds"} ELSE {})
+  \cup (IF HasNegativeTime(ev.x) /\ ev.ok /\ ~TimesSound(ev.x, ev.t) THEN {"accepted although the lifetime cap or the window is violated (signed timestamps)"} ELSE {})
   \cup (IF ev.exact /\ ev.ok /\ a.ok /\ ev.ret # a.payload THEN {"payload"} ELSE {})
   \cup (IF ev.hasfile /\ rr.res = "ok" /\ (ev.readerr \/ ~SameFields(rr.x, ev.x)) THEN {"reader returned other fields than the file holds"} ELSE {})
   \cup (IF ev.hasfile /\ rr.res = "err" /\ ~ev.readerr THEN {"reader accepted a malformed file"} ELSE {})
